@@ -156,6 +156,18 @@ def vrt_check(I, args, callee):
     return unit()
 
 
+@model('vrt_soft_check')
+def vrt_soft_check(I, args, callee):
+    c = args[0]
+    msg = (concrete_bytes(items_of(args[1])) or b'?').decode('utf-8', 'replace')
+    if type(c) is not Sym:
+        if not c:
+            I.report('check', msg)
+        return unit()
+    I.report('check', msg, z3.Not(c.e))
+    return unit()
+
+
 @model('vrt_cover')
 def vrt_cover(I, args, callee):
     c = args[0]
